@@ -1,9 +1,10 @@
 use std::{
     error::Error as StdError,
-    fmt::{self, Display},
+    fmt::{self, Display, Write as _},
     str::FromStr,
 };
 
+use email_encoding::headers::writer::EmailWriter;
 use mime::Mime;
 
 use super::{Header, HeaderName, HeaderValue};
@@ -55,7 +56,20 @@ impl Header for ContentType {
     }
 
     fn display(&self) -> HeaderValue {
-        HeaderValue::new(Self::name(), self.0.to_string())
+        let raw = self.0.to_string();
+        // Content-Type is a structured field: its readers take `=?...?=` inside a (quoted) parameter
+        // value literally, so printable ASCII is only folded, never turned into an encoded-word
+        // (the boundary parameter has to match the delimiter lines)
+        if raw.bytes().all(|b| b == b'\t' || (b' '..=b'~').contains(&b)) {
+            let name = Self::name();
+            let mut encoded = String::with_capacity(raw.len());
+            let mut writer = EmailWriter::new(&mut encoded, name.len() + ": ".len(), 0, false);
+            if writer.folding().write_str(&raw).is_ok() {
+                drop(writer);
+                return HeaderValue::dangerous_new_pre_encoded(name, raw, encoded);
+            }
+        }
+        HeaderValue::new(Self::name(), raw)
     }
 }
 
